@@ -1148,7 +1148,10 @@ def _keys(ctx: Context, R: str) -> None:
                 continue
             k = strip_sites(T.of(cfg, n, tg.slice))
             stores += 1
-            ok = k == ("tuple", (("sub", elem, ("const", "aid")), ("sub", elem, ("const", "iid"))))
+            def _fld(nm):  # c[nm] or c.pop(nm)
+                return (("sub", elem, ("const", nm)), ("call", ("attr", elem, "pop"), (("const", nm),), ()))
+
+            ok = k[0] == "tuple" and len(k[1]) == 2 and k[1][0] in _fld("aid") and k[1][1] in _fld("iid")
             ck.check(R, ok, "format_characteristic_list: an event entry is keyed by (c['aid'], c['iid']) of its own characteristic",
                      f"{ctx.fkey(f)}:key", f"format_characteristic_list: an entry is keyed by {show(k, 120)}, not (c['aid'], c['iid'])", ctx.loc(f, n))
     if stores == 0:
